@@ -880,6 +880,16 @@ twin('c11-flag-truthy', 'C11', P, 'Process.DoGlobalIteration', 'if self.__first_
 twin('c11-local-temp', 'C11', P, 'Process.DoGlobalIteration',
      '                newpoint, oldpoint = self.method.CalculateIterationPoint()\n',
      '                pair = self.method.CalculateIterationPoint()\n                newpoint, oldpoint = pair\n')
+fire('c11-solve-forces-recalc', 'C11', P, 'Process.Solve', '        startTime = datetime.now()\n',
+     '        startTime = datetime.now()\n        self.method.recalc = True\n', 'R11.7')
+fire('c11-solve-resets-accuracy', 'C11', P, 'Process.Solve', '        startTime = datetime.now()\n',
+     '        startTime = datetime.now()\n        self.searchData.solution.solutionAccuracy = 1.0\n', None)
+fire('c11-solve-clears-queue', 'C11', P, 'Process.Solve', '        startTime = datetime.now()\n',
+     '        startTime = datetime.now()\n        self.searchData.ClearQueue()\n', 'R11.7')
+twin('c11-solve-own-counter', 'C11', P, 'Process.Solve', '        startTime = datetime.now()\n',
+     '        startTime = datetime.now()\n        self.solveCalls = 1\n')
+twin('c11-solve-local-flag', 'C11', P, 'Process.Solve', '        result = self.GetResults()\n',
+     '        result = self.GetResults()\n        refined = bool(self.parameters.refineSolution)\n')
 
 # ----------------------------------------------------------------------------- C18
 HG = PR + 'Hill/hill_generation.py'
